@@ -129,6 +129,11 @@ func locRootSuffix(c *Ctx, a *flAgg) {
 				note(key, false, "the recorded root is "+got+", not the probe result without its "+suf+" suffix", ev.Pos)
 				continue
 			}
+			// a remote GOPATH is mapped to the local GOPATH that was probed
+			if what == "RemoteGOPATHs" && dir.Op == OpBin && ev.Val != nil && ev.Val.String() != dir.Args[0].String() {
+				note(key, false, "the remote root is mapped to "+ev.Val.String()+", not to the local root "+dir.Args[0].String()+" under which the file was found", ev.Pos)
+				continue
+			}
 			note(key, true, "", ev.Pos)
 		}
 	}
@@ -379,6 +384,17 @@ func locProbe(c *Ctx, a *flAgg) {
 					if call, ok := in.(*ssa.Call); ok {
 						if cal := call.Call.StaticCallee(); cal != nil && cal.Name() == "isRootedIn" {
 							n++
+						} else if cal != nil && cal.Blocks != nil && defaultInline(cal) {
+							// a helper outside the pinned vocabulary that probes
+							for _, hb := range cal.Blocks {
+								for _, hin := range hb.Instrs {
+									if hc, ok := hin.(*ssa.Call); ok {
+										if c2 := hc.Call.StaticCallee(); c2 != nil && c2.Name() == "isRootedIn" {
+											n++
+										}
+									}
+								}
+							}
 						}
 					}
 				}
@@ -524,6 +540,12 @@ func locSkip(c *Ctx, a *flAgg) {
 	}
 	if okAll && wrongTable != "" {
 		okAll, why = false, wrongTable
+	}
+	// every file is looked at: the loop ends when the list does
+	if early := leftEarly(seg.Paths, l, nil); len(early) > 0 {
+		a.bad("LOC-probe", "findRoots/all-files", "the loop over the files is left before the list is exhausted ("+litsString(early[0])+"): the files behind that one are never looked at, so their roots are not detected", pathPos(early[0], fn))
+	} else {
+		a.ok("LOC-probe", "findRoots/all-files", "the loop over the files ends only when every file was looked at", fn.Pos())
 	}
 	switch {
 	case n == 0:
